@@ -506,7 +506,8 @@ def task_derive(cell, p, s, ref, which):
         if which == "dh":
             k, peer = F.KEYS["dh1024"], F.KEYS["dh1024" + suffix]
             hp = mk(p, s, "dh_priv", [(C.CKA_DERIVE, True)])
-            r = p.DeriveKey(s, mech(C.CKM_DH_PKCS_DERIVE, F.H(peer["y"])), hp, T + [(C.CKA_VALUE_LEN, 128)])
+            r_mech, r_tpl = mech(C.CKM_DH_PKCS_DERIVE, F.H(peer["y"])), T + [(C.CKA_VALUE_LEN, 128)]
+            r = p.DeriveKey(s, r_mech, hp, r_tpl)
             want = ref.try_out("AGREE", type="dh", p=F.H(k["p"]), g=F.H(k["g"]), x=F.H(k["x"]), peer=F.H(peer["y"]))
             want = want.rjust(128, b"\0") if want is not None else None
             pure = pow(int(peer["y"], 16), int(k["x"], 16), int(k["p"], 16)).to_bytes(128, "big")
@@ -515,13 +516,15 @@ def task_derive(cell, p, s, ref, which):
             curve = {"ec256": "secp256r1", "ec384": "secp384r1", "ec521": "secp521r1"}[which]
             hp = mk(p, s, which + "_priv", [(C.CKA_DERIVE, True)])
             flen = {"ec256": 32, "ec384": 48, "ec521": 66}[which]
-            r = p.DeriveKey(s, mech(C.CKM_ECDH1_DERIVE, ecdh_params(F.H(peer["rawpoint"]))), hp, T + [(C.CKA_VALUE_LEN, flen)])
+            r_mech, r_tpl = mech(C.CKM_ECDH1_DERIVE, ecdh_params(F.H(peer["rawpoint"]))), T + [(C.CKA_VALUE_LEN, flen)]
+            r = p.DeriveKey(s, r_mech, hp, r_tpl)
             want = ref.try_out("AGREE", type="ecdh", curve=curve, x=F.H(k["value"]), peer=F.H(peer["rawpoint"]))
             pure = F.H(peer["shared_x"]) if "shared_x" in peer else None
         else:
             k, peer = F.KEYS["x25519"], F.KEYS["x25519peer"]
             hp = mk(p, s, "x25519_priv", [(C.CKA_DERIVE, True)])
-            r = p.DeriveKey(s, mech(C.CKM_ECDH1_DERIVE, ecdh_params(F.H(peer["rawpoint"]))), hp, T + [(C.CKA_VALUE_LEN, 32)])
+            r_mech, r_tpl = mech(C.CKM_ECDH1_DERIVE, ecdh_params(F.H(peer["rawpoint"]))), T + [(C.CKA_VALUE_LEN, 32)]
+            r = p.DeriveKey(s, r_mech, hp, r_tpl)
             want = ref.try_out("AGREE", type="x25519", x=F.H(k["value"]), peer=F.H(peer["rawpoint"]))
             pure = None
         cell.count("cells")
@@ -537,6 +540,19 @@ def task_derive(cell, p, s, ref, which):
             cell.V("C10|derive-%s|%s-peer|shared-secret-differs-from-reference" % (which, pname), {"token": val, "reference": want})
         else:
             cell.count("outputs_equal_reference")
+        # a shorter key than the shared secret: PKCS#11 cuts the secret to the requested length by removing bytes from the LEADING end
+        if want is not None and len(want) > 16:
+            T16 = [x for x in r_tpl if x[0] != C.CKA_VALUE_LEN] + [(C.CKA_VALUE_LEN, 16)]
+            r16 = p.DeriveKey(s, r_mech, hp, T16)
+            cell.count("cells")
+            if r16["rv"] != 0:
+                cell.V("C10|derive-%s|%s-peer|short-key-refused" % (which, pname), {"rv": r16["rv"]})
+            else:
+                rv16, val16 = p.get_attr(s, r16["h"], C.CKA_VALUE)
+                if val16 != want[-16:]:
+                    cell.V("C10|derive-%s|%s-peer|short-key-is-not-the-trailing-bytes-of-the-shared-secret" % (which, pname), {"token": val16, "reference_secret": want})
+                else:
+                    cell.count("outputs_equal_reference")
 
 
 def _task(task):
